@@ -370,6 +370,12 @@ func c13Gen(rt *rapid.T) c13Prog {
 	for i := 0; i < ns; i++ {
 		p.Sess = append(p.Sess, c13Pick(rt, []int{0, 0, 1, 1, 2, -1, -2}, "sessuser"))
 	}
+	// some connections (never the bystander's) talk protobuf
+	for k := 1; k < len(p.Sess); k++ {
+		if c13Maybe(rt, 20) {
+			p.Cfg.Grpc = append(p.Cfg.Grpc, k)
+		}
+	}
 	// a prologue of ordinary ops so that hostile messages meet live topics
 	if c13Maybe(rt, 75) {
 		p.Ops = append(p.Ops, wOp{K: "sub", S: 1, T: "me"})
@@ -388,6 +394,12 @@ func c13Gen(rt *rapid.T) c13Prog {
 			// both participants of the P2P topic unsubscribe while it stays loaded
 			p.Ops = append(p.Ops, wOp{K: "sub", S: 1, T: "p1"}, wOp{K: "sub", S: 2, T: "p0"}, wOp{K: "sub", S: 1, T: "p0"}, wOp{K: "sub", S: 2, T: "p1"},
 				wOp{K: "leave", S: 1, T: "p1", F: true}, wOp{K: "leave", S: 1, T: "p0", F: true}, wOp{K: "leave", S: 2, T: "p0", F: true}, wOp{K: "leave", S: 2, T: "p1", F: true})
+		}
+		if c13Maybe(rt, 12) && len(p.Sess) > 2 {
+			// a client which keeps a cache asks what has changed since it last looked: a subscription it
+			// gave up long before that, in a group which has been busy since
+			p.Ops = append(p.Ops, wOp{K: "sub", S: 2, T: "g0"}, wOp{K: "sub", S: 2, T: "me"}, wOp{K: "leave", S: 2, T: "g0", F: true}, wOp{K: "tick", N: 200000},
+				wOp{K: "pub", S: 1, T: "g0"}, wOp{K: "get", S: 2, T: "me", A: c13Pick(rt, []string{"sub", "sub", "desc sub"}, "cachewhat"), H: map[string]any{"ims": "recent"}})
 		}
 		if c13Maybe(rt, 20) {
 			p.Ops = append(p.Ops, wOp{K: "leave", S: 1, T: "me"}, wOp{K: "sub", S: 1, T: "me", B: c13Pick(rt, []string{"cred", "desc sub cred tags", "data del"}, "getwhat")})
@@ -504,6 +516,23 @@ func (o *c13Obs) Before(w *wWorld, op *wOp) {
 }
 
 func (o *c13Obs) After(w *wWorld, st *wStep) *kit.Viol {
+	if !st.Skipped && st.ReqID != "" && (st.Op.K == "sub" || st.Op.K == "leave" || st.Op.K == "pub" || st.Op.K == "get" || st.Op.K == "set" || st.Op.K == "del") {
+		// the well-formed requests of the prologue: answered like any other
+		answered := false
+		for _, f := range st.Frames[st.Sess] {
+			if (f.Ctrl != nil && f.Ctrl.Id == st.ReqID) || (f.Meta != nil && f.Meta.Id == st.ReqID) {
+				answered = true
+			}
+		}
+		for _, d := range st.Died {
+			if d == st.Sess {
+				answered = true
+			}
+		}
+		if !answered {
+			return kit.V("unanswered:"+st.Op.K+":"+st.Op.A, "request got no reply echoing its id %q at quiescence: %s frames=%s", st.ReqID, st.Req, wFramesStr(st.Frames[st.Sess]))
+		}
+	}
 	if st.Op.K != "raw" || st.Skipped {
 		return nil
 	}
